@@ -167,7 +167,7 @@ def oracle(seed, tier):
                 bad("'random number seed' in the file does not override the constructor seed")
         if len(samples) < 2 and hit:
             samples.append({"world": w, "query": qs[0] % "a", "answer": A[0][:160]})
-    return {"violations": viol[:20], "summary": {"cases": cases, "violations": len(viol), "nontrivial": nontriv, "input_distribution": dist}, "samples": samples}
+    return {"violations": trim_violations(viol, 20), "summary": {"cases": cases, "violations": len(viol), "nontrivial": nontriv, "input_distribution": dist}, "samples": samples}
 
 
 def replay(rp):
